@@ -79,7 +79,19 @@ def op (ss : Session) (toks : List String) : Option (String × Session) :=
   | ["tick", e] => do act ss (.tick (ss.st.passAt + (← parseNat? e)))
   | ["close"] => act ss (.close ss.now)
   | ["release"] => act ss (.release ss.now)
-  | ["stop"] => act ss .stop
+  | ["stop"] =>
+    -- while the discipline awaits the release, its blocked select reacts to the stop signal at
+    -- once (sets `unreleased`, the deferred `resetPassAt` runs): whether that has happened when
+    -- the harness looks is a race, so both sides print these two fields masked here; the
+    -- following `stopseen` compares them
+    (match ss.st.pc with
+     | .await _ =>
+       (match act ss .stop with
+        | some (r, ss') =>
+          let cut := (r.splitOn " unrel=").headD r
+          some (cut ++ " unrel=* pa=*", ss')
+        | none => none)
+     | _ => act ss .stop)
   | ["stopseen"] => act ss (.stopSeen ss.now) false
   | _ => none
 
